@@ -24,9 +24,11 @@ VARIABLES tr, l,
           prevStore,  \* store dump after the previous step
           prevApi,    \* api states after the previous step
           eof,        \* streams whose current registration has read everything
+          batch,      \* pack ids delivered and not yet seen in a downstream write (content of the batcher)
+          lost,       \* pack ids that sat in a batch whose write failed on another pack and were never written
           stalled,    \* the current incarnation had a failed write while another task kept the target's entity alive
           okc05, okc06, kfused
-vars == <<tr, l, acked, delivered, prevStore, prevApi, eof, stalled, okc05, okc06, kfused>>
+vars == <<tr, l, acked, delivered, prevStore, prevApi, eof, batch, lost, stalled, okc05, okc06, kfused>>
 
 Params == Traces[tr].params
 Catalog == Params.catalog
@@ -35,7 +37,7 @@ TaskList == Params.tasks
 
 TInit == /\ tr \in 1..Len(Traces) /\ l = 1
          /\ acked = {} /\ delivered = <<>> /\ prevStore = [tasks |-> <<>>, pos |-> <<>>] /\ prevApi = <<>>
-         /\ eof = {} /\ stalled = FALSE /\ okc05 = TRUE /\ okc06 = TRUE /\ kfused = {}
+         /\ eof = {} /\ batch = {} /\ lost = {} /\ stalled = FALSE /\ okc05 = TRUE /\ okc06 = TRUE /\ kfused = {}
 
 (* ---------------- catalog helpers ---------------- *)
 CollById(id) == Catalog[CHOOSE i \in 1..Len(Catalog) : Catalog[i].id = id]
@@ -63,7 +65,11 @@ CkOK(coll, ch, id, a) ==
        /\ LET s == StreamOf(coll, ch) IN
           /\ InScript(s, id)
           /\ id \in a
-          /\ \A k \in 1..IdxOf(s, id) : HasData(Scripts[s][k]) => Scripts[s][k].id \in a
+          /\ \A k \in 1..IdxOf(s, id) : HasData(Scripts[s][k]) =>
+                \/ Scripts[s][k].id \in a
+                \* known finding C05_batch_failure_drops_other_tasks: a pack that shared a batch with another pack whose
+                \* write failed is dropped although its own task keeps running
+                \/ (KFOn("C05_batch_failure_drops_other_tasks") /\ Scripts[s][k].id \in lost)
 \* fold the visible calls of one step: acks first extend the acknowledged set, every effective checkpoint write is checked
 RECURSIVE FoldLog(_, _, _, _)
 FoldLog(lg, i, a, ok) ==
@@ -91,10 +97,13 @@ Running(api, t) == \E i \in 1..Len(api) : api[i].task = t /\ api[i].state = "Run
 \* channel returns; when another running task keeps the target's entity alive nobody consumes the channel any more, so
 \* packs delivered later in that incarnation are never written although their tasks are Running.  With the finding
 \* enabled, at-least-once is not demanded of an incarnation in which that happened.
-AtLeastOnce(api, ef, a, st) ==
-    (Params.maxcount = 1 /\ ~(KFOn("C05_write_loop_exits") /\ st)) =>
+AtLeastOnce(api, ef, a, st, bt, ls) ==
+    ~(KFOn("C05_write_loop_exits") /\ st) =>
       \A s \in ef : Running(api, TaskOfStream(s)) =>
-          \A k \in 1..Len(Scripts[s]) : HasData(Scripts[s][k]) /\ ~UnknownPart(s, Scripts[s][k]) => Scripts[s][k].id \in a
+          \A k \in 1..Len(Scripts[s]) : HasData(Scripts[s][k]) /\ ~UnknownPart(s, Scripts[s][k]) =>
+             \/ Scripts[s][k].id \in a
+             \/ (Scripts[s][k].id \in bt /\ Cardinality(bt) < Params.maxcount)       \* still waiting in a batch that is not full
+             \/ (KFOn("C05_batch_failure_drops_other_tasks") /\ Scripts[s][k].id \in ls)
 
 (* ---------------- C06 ---------------- *)
 StateIn(api, t) == IF \E i \in 1..Len(api) : api[i].task = t
@@ -111,7 +120,11 @@ C06Step(e) ==
                   \cup (IF e.op = "deliver" /\ e.res = "ok" /\ UnknownPart(e.s, Scripts[e.s][e.idx]) THEN {TaskOfStream(e.s)} ELSE {}) IN
     /\ (~Crashed(e.log) /\ e.op \in {"deliver"}) =>
       /\ \A t \in owners : StateIn(e.api, t).state = "Paused" /\ StateIn(e.api, t).reason       \* the owner is paused, with a reason
-      /\ \A t \in AllTasks \ owners : StateIn(e.api, t).state = StateIn(prevApi, t).state          \* nobody else changes state
+      \* nobody else changes state.  Known finding C06_batch_failure_pauses_trigger_task: when a batch mixing tasks fails,
+      \* the task whose pack triggered the flush is paused too
+      /\ \A t \in AllTasks \ owners : \/ StateIn(e.api, t).state = StateIn(prevApi, t).state
+                                       \/ (KFOn("C06_batch_failure_pauses_trigger_task") /\ owners # {} /\ Params.maxcount > 1
+                                            /\ t = TaskOfStream(e.s) /\ StateIn(e.api, t).state = "Paused")
       /\ (e.op = "deliver" /\ e.res = "ok" /\ UnknownPart(e.s, Scripts[e.s][e.idx]) => e.id \notin acked')   \* never silently written
     \* "exactly the failing task": a task that is reported Running keeps reading - its streams are still registered
     /\ (e.op = "deliver" /\ e.res = "unregistered") => StateIn(e.api, TaskOfStream(e.s)).state # "Running"
@@ -132,12 +145,23 @@ TStep ==
        /\ prevStore' = e.store /\ prevApi' = e.api
        /\ (P("C05") => okc05')
        /\ (P("C06") => okc06')
+       /\ LET ackedIds == UNION {{e.log[i].ids[j] : j \in 1..Len(e.log[i].ids)} : i \in {x \in 1..Len(e.log) : e.log[x].ev = "ack"}}
+              nb == (IF e.op = "deliver" /\ e.res = "ok" THEN batch \cup {e.id} ELSE batch) IN
+          /\ batch' = IF e.op \in {"boot", "restart", "kill", "pause", "resume"} \/ Crashed(e.log) THEN {}
+                       ELSE IF ackedIds # {} \/ FailedOwners(e.log) # {} THEN {} ELSE nb
+          /\ lost' = IF FailedOwners(e.log) # {} /\ ~Crashed(e.log) THEN lost \cup (nb \ acked') ELSE lost
        /\ stalled' = IF e.op \in {"boot", "restart"} THEN FALSE
                      ELSE stalled \/ (FailedOwners(e.log) # {} /\ ~Crashed(e.log)
                                        /\ \E t \in AllTasks \ FailedOwners(e.log) : StateIn(e.api, t).state = "Running")
-       /\ (l = Len(Traces[tr].events) /\ P("C05") => AtLeastOnce(e.api, eof', acked', stalled'))
-       /\ kfused' = IF l = Len(Traces[tr].events) /\ P("C05") /\ KFOn("C05_write_loop_exits") /\ stalled' /\ ~AtLeastOnce(e.api, eof', acked', FALSE)
-                      THEN kfused \cup {"C05_write_loop_exits"} ELSE kfused
+       /\ (l = Len(Traces[tr].events) /\ P("C05") => AtLeastOnce(e.api, eof', acked', stalled', batch', lost'))
+       /\ kfused' = (IF KFOn("C05_batch_failure_drops_other_tasks") /\ P("C05") /\ lost' # {} THEN {"C05_batch_failure_drops_other_tasks"} ELSE {})
+                     \cup (IF KFOn("C06_batch_failure_pauses_trigger_task") /\ P("C06") /\ e.op = "deliver" /\ Params.maxcount > 1
+                              /\ FailedOwners(e.log) # {} /\ ~Crashed(e.log)
+                              /\ \E t \in AllTasks \ FailedOwners(e.log) : StateIn(e.api, t).state # StateIn(prevApi, t).state
+                            THEN {"C06_batch_failure_pauses_trigger_task"} ELSE {})
+                     \cup (IF l = Len(Traces[tr].events) /\ P("C05") /\ KFOn("C05_write_loop_exits") /\ stalled' /\ ~AtLeastOnce(e.api, eof', acked', FALSE, batch', lost')
+                             THEN {"C05_write_loop_exits"} ELSE {})
+                     \cup kfused
     /\ l' = l + 1 /\ tr' = tr
     /\ (Diag => PrintT("AT " \o ToString(Traces[tr].plan) \o " " \o ToString(l)))
     /\ (l = Len(Traces[tr].events) =>
